@@ -19,7 +19,7 @@ from harness import gq, gen, implrun
 HEADER = """Require Import List ZArith QArith String.
 From PV.DSL Require Import Syntax.
 From PV.Gen Require Import Algorithms_gen.
-From PV.Alg Require Import SemExec.
+From PV.Alg Require Import SemExec TruncTie.
 Import ListNotations.
 Open Scope string_scope.
 """
@@ -79,6 +79,21 @@ def coq_term(case, series, alg):
                ";".join(cg(e) for e in El), "true" if tb else "false", sols, alg))
 
 
+def coq_inputs_term(case, series):
+    """inputs_ok of Alg/TruncTie.v: with check_alg = true it makes C01_tie_conclusions applicable to this case
+    (general wiring, i.e. not the two-block optimisation); None when the theorem is not stated for the case."""
+    bl, K, cb, El, tb = wiring_tables(case)
+    if tb or not case["hermitian"]:
+        return None
+    D = len(case["sub"])
+    sols = "[" + ";".join("(%s, %s)" % (cstr(n), cser(S)) for n, S in sorted(series.items())) + "]"
+    return ("(inputs_ok %d %d %d [%s]%%nat [%s] [%s] [%s]%%Q (%s)%%Q)"
+            % (D, case["nparam"], case["N"], ";".join(str(b) for b in bl),
+               ";".join("[" + ";".join("true" if x else "false" for x in r) + "]" for r in K),
+               ";".join("true" if x else "false" for x in cb),
+               ";".join(cg(e) for e in El), sols))
+
+
 def symmetric_masks(case):
     f = case["fully"]
     if not isinstance(f, dict):
@@ -101,6 +116,7 @@ def tie_semeq(ctx, hermitian=True, ncases=None, N=None):
     if not ok:
         return dict(cases=0, nontrivial=0, rule="k_semeq", samples=[], disagreements=[dict(what="Alg/SemExec.v does not build: " + log[-600:])])
     cases, terms, dis, sigs = [], [], [], {}
+    iterms, iidx = [], []
     tries = 0
     while len(cases) < n and tries < 20 * n:
         tries += 1
@@ -114,11 +130,24 @@ def tie_semeq(ctx, hermitian=True, ncases=None, N=None):
             continue
         cases.append(c)
         terms.append(coq_term(c, series, alg))
+        it = coq_inputs_term(c, series) if hermitian else None
+        if it is not None:
+            iterms.append(it)
+            iidx.append(len(cases) - 1)
         s = gen.case_signature(c)
         sigs[str(s)] = sigs.get(str(s), 0) + 1
     bad = core.coq_eval_cases("semeq_%s" % alg, HEADER, terms, shard=max(1, len(terms) // 14 + 1), timeout=1500, jobs=14)
     for i in bad:
         dis.append(dict(what="the implementation's series values do not satisfy the semantics of %s_alg (DSL/Sem.v) up to order %d" % (alg, N), input=cases[i]))
+    applies = None
+    if iterms:
+        # side conditions of Props/C01.v C01_tie_conclusions: where they hold (and check_alg holds), the conclusions of
+        # C01/C02/C03 up to order N are THEOREMS about the loaded tables; a case where they fail is outside the theorem
+        # (not a disagreement), it is only counted
+        ibad = set(core.coq_eval_cases("semeq_inputs", HEADER, iterms, shard=max(1, len(iterms) // 14 + 1), timeout=1500, jobs=14))
+        badset = set(bad)
+        applies = sum(1 for j, ci in enumerate(iidx) if j not in ibad and ci not in badset)
+        sigs["C01_tie_conclusions applies (check_alg && inputs_ok)"] = "%d of %d general-wiring cases" % (applies, len(iterms))
     return dict(cases=len(cases), nontrivial=len({gq_canon(c) for c in cases if len(c["sub"]) >= 2}),
                 rule="random exact problems (dim<=5, blocks<=3, params<=2, order<=%d), ALL named series of %s_alg loaded into Coq and checked against every equation of Sem by vm_compute; non-trivial = distinct with dim>=2" % (N, alg),
                 samples=[gen.case_signature(c) for c in cases[:3]], distribution=sigs, disagreements=dis)
